@@ -160,6 +160,17 @@ def _reorder_parameters(parameters: list[Parameter]) -> list[Parameter]:
     return pos_only + pos_kw + kw_only
 
 
+def _set_dataclass_label(class_: Class) -> None:
+    # At least one parent dataclass makes the current class a dataclass:
+    # that's how `dataclasses.is_dataclass` works (whether or not the class defines its own `__init__`).
+    try:
+        mro = class_.mro()
+    except ValueError:
+        return
+    if any(_dataclass_decorator(parent.decorators) for parent in mro):
+        class_.labels.add("dataclass")
+
+
 def _set_dataclass_init(class_: Class) -> None:
     # Retrieve parameters from all parent dataclasses.
     parameters = []
@@ -170,9 +181,6 @@ def _set_dataclass_init(class_: Class) -> None:
     for parent in reversed(mro):
         if _dataclass_decorator(parent.decorators):
             parameters.extend(_dataclass_parameters(parent))
-            # At least one parent dataclass makes the current class a dataclass:
-            # that's how `dataclasses.is_dataclass` works.
-            class_.labels.add("dataclass")
 
     # If the class is not decorated with `@dataclass`, skip it.
     if not _dataclass_decorator(class_.decorators):
@@ -211,6 +219,7 @@ def _apply_recursively(mod_cls: Module | Class, processed: set[str]) -> None:
         return
     processed.add(mod_cls.canonical_path)
     if isinstance(mod_cls, Class):
+        _set_dataclass_label(mod_cls)
         if "__init__" not in mod_cls.members:
             _set_dataclass_init(mod_cls)
             _del_members_annotated_as_initvar(mod_cls)
